@@ -1077,6 +1077,59 @@ def r16(k: Kit) -> None:
                       'takes exponential time', fi.loc(c))
     rep.floor('C10.R16', 'run-time built patterns', n, 1)
 
+
+# ------------------------------------------------------------------ R17
+
+def r17(k: Kit) -> None:
+    from ..index import parent
+    rep = k.rep
+    idx = k.idx
+    rep.rule('C10.R17', 'a loop that runs `while <packet>` and reads fields '
+             'from that packet inside a try never has a handler that catches '
+             'PacketDecodeError (or a superclass: ValueError, Exception) and '
+             'lets the loop continue: get_string() raises before consuming '
+             'when fewer bytes remain than it needs, so the packet never '
+             'becomes empty and the event loop spins on a 1-byte tail')
+    n = 0
+    supers = {'PacketDecodeError', 'ValueError', 'Exception', 'BaseException'}
+    for fi in idx.iter_funcs():
+        for w in ast.walk(fi.node):
+            if not isinstance(w, ast.While):
+                continue
+            tv = dotted(w.test)
+            if not tv or 'packet' not in tv.lower():
+                continue
+            for t in ast.walk(w):
+                if not isinstance(t, ast.Try):
+                    continue
+                reads = any(isinstance(c, ast.Call) and
+                            isinstance(c.func, ast.Attribute) and
+                            dotted(c.func.value) == tv and
+                            c.func.attr.startswith('get_')
+                            for st in t.body for c in ast.walk(st))
+                if not reads:
+                    continue
+                n += 1
+                for h in t.handlers:
+                    names = {dotted(x) for x in (
+                        h.type.elts if isinstance(h.type, ast.Tuple)
+                        else [h.type])} if h.type is not None else \
+                        {'BaseException'}
+                    leaves = any(isinstance(x, (ast.Raise, ast.Return,
+                                                ast.Break))
+                                 for st in h.body for x in ast.walk(st))
+                    rep.check(not (names & supers) or leaves, 'C10.R17',
+                              key(fi, f'packet loop L{w.lineno} handler '
+                                  f'{sorted(names)}'),
+                              'decode errors end the loop',
+                              f'`except {", ".join(sorted(names))}` inside '
+                              f'`while {tv}:` swallows the framing error of '
+                              'a truncated field and the loop goes round '
+                              'again on the same bytes: a host key list '
+                              'ending in one stray byte makes the client '
+                              'spin for ever in its event loop', fi.loc(h))
+    rep.floor('C10.R17', 'packet loops with guarded reads', n, 1)
+
 # ------------------------------------------------------------------ R12
 
 def r12(k: Kit) -> None:
@@ -1158,6 +1211,7 @@ def run(idx, rep, tier):
     r13(k)
     r15(k)
     r16(k)
+    r17(k)
     from .c12 import copy_loop_progress
     rep.rule('C10.R14', 'copy-data: the server\'s copy loop reaches its '
              'test again only after a read that returned data (= clause of '
